@@ -41,8 +41,10 @@ def gen_driver(pkg, layout):
     return '\n'.join(src) + '\n'
 
 
-def build(case, cxx, std, variant, opt='-O1'):
+def build(case, cxx, std, variant, opt=None):
     """case: wire.SchemaCase with .layout; returns (exe|None, log)"""
+    if opt is None:
+        opt = '-O0'   # halves the compile time; the reads and callbacks are all performed at -O0
     src = os.path.join(case.dir, 'c06_driver.cpp')
     if not os.path.exists(src):
         tmp = src + '.%d.%s%s%s' % (os.getpid(), cxx, std, variant)
